@@ -369,6 +369,15 @@ def run_case(case, ctx):
             from odfdo import Cell
 
             for d in case["decor"]:
+                # the decoration must not overwrite the cells of a span the initial table already has (the anchor would then
+                # claim a cell that is no longer covered: an inconsistent table, not a state the library produced)
+                anchors0, covered0 = span_facts(snap(t))
+                taken = set(covered0)
+                for (ax, ay), (cs, rs) in anchors0.items():
+                    taken |= {(i, j) for j in range(ay, ay + rs) for i in range(ax, ax + cs)}
+                if any((d["x"] + k, d["y"]) in taken for k in range(max(d["r"], 1))):
+                    ctx.count("decor-skipped-on-span")
+                    continue
                 t.set_cell((d["x"], d["y"]), Cell(VALUES[d["v"]], style=STYLES[d["s"]], repeated=d["r"] if d["r"] > 1 else None))
     for step in case["steps"]:
         STEPS[step["k"]](ctx, t, step, case, labels)
